@@ -202,3 +202,21 @@ for _k, _extra in {
     "C20": "Group-prefix / child-of-leaf parameter references; one model object validated repeatedly with changing parameter sets.",
 }.items():
     CHECKS[_k]["text"] += " " + _extra
+for _k, _extra in {
+    "C01": "Linked datasets that list shared clp labels in opposite orders (targeted cases, no fault injection).",
+    "C04": "A k-matrix shared by a combining and a plain megacomplex of one dataset group, both declaration orders.",
+    "C06": "Family `split`: two decay megacomplexes over disjoint parts of one initial concentration (all orders).",
+    "C08": "A neutral first weight item per dataset.",
+    "C09": "Dataset labels whose concatenations collide (a, b, ab, ...), incl. the case where the colliding dataset lives alone on its part of the axis.",
+    "C10": "Walks over a linked clp-guide scheme with a megacomplex scale and over a dataset with five scaled builtin megacomplex types.",
+    "C12": "Copies are updated and the original compared.",
+    "C13": "chi_square is compared with the reported penalties (1e-9) and, separately, the reported penalties with the reference (conditioning-aware).",
+    "C14": "An expression-tied rate; the perturbed start is an independently built parameter set.",
+    "C15": "Weighted datasets stored (global, model) and Fortran-ordered data in the fault-enumeration schemes.",
+    "C16": "Leading-dot scientific notation for labelled values.",
+    "C17": "Result folders named through '..', '.' and a sibling folder; stored references starting with '../' are violations.",
+    "C18": "Composite result saves failing midway (raising data plugin, format without save, OSError in save_model / save_scheme / write_dict) next to bystander files.",
+    "C19": "load_result with an explicit format on an existing folder.",
+    "C20": "One item of every collection carries the same label in a third of the specifications.",
+}.items():
+    CHECKS[_k]["text"] += " " + _extra
